@@ -290,9 +290,16 @@ def samplers(ctx, meas, np, quick, ops, checks, fl, f2b):
                           '(tau is not Q^-1(u): simulated marginals cannot be 1-Q(T))',
                           dict(cs, u=float(ui[k]), returned_tau=float(ti[k]), survival_at_tau=float(back[k])),
                           clause='default-time-inversion')
-        # non-increasing in u, judged in survival space (tau itself is ill-conditioned across a nearly flat interval:
-        # 6e-12 measured at a pillar shared with an interval of hazard 1e-4)
-        wrong = (np.diff(ti) > 0.0) & (back[:-1] - back[1:] > 1e-12 * scale[1:])
+        # non-increasing in u, judged in survival space.  tau = (t1 log(q2/u) + t2 log(u/q1)) / log(q2/q1) is ill-conditioned
+        # across a nearly flat interval: the quotient q2/q1 and its log carry an absolute error ~u53, i.e. a relative error
+        # 2 u53 / L in the denominator L = |log(q2/q1)|, hence |d tau| <= 4 u53 t_max / L_min; read back through the steepest
+        # neighbouring interval (hazard h_max) that is a relative error h_max |d tau| of the survival probability.  With a safety
+        # factor 4: cond = 16 u53 t_max h_max / L_min (seed 29: pillar between hazards 0.39 and 2.1e-4: measured 3.6e-12,
+        # bound 6.3e-11).  The round-trip tolerance 1e-9 stays far above cond for every generated curve (<= 3e-10).
+        seg_l = np.abs(np.diff(np.log(v)))
+        cond = 16.0 * 2.0 ** -53 * float(t[-1]) * float(np.max(seg_l / np.diff(t))) / float(np.min(seg_l))
+        meas.see('udt.monotone-drop-rel / cond', float(np.max(np.where(np.diff(ti) > 0.0, (back[:-1] - back[1:]) / (ui[1:] * cond), 0.0))))
+        wrong = (np.diff(ti) > 0.0) & (back[:-1] - back[1:] > 1e-12 * scale[1:] + cond * ui[1:])
         if wrong.any():
             k = int(np.argmax(wrong))
             ctx.violation('uniform_to_default_time is not non-increasing in u',
